@@ -377,9 +377,14 @@ pub fn size_bounds(keys: &[Key], ops: &[Op]) -> (u64, u64) {
 /// D6b exclusion: PerMille(p<1000) on a file that may exceed one 128 KiB chunk hangs inside the
 /// rabuf dependency (known finding).  Returns the sanitised params and the number of excluded draws.
 pub fn sanitize_params(p: Params, key_bound: u64, val_bound: u64) -> (Params, u64) {
+    sanitize_params_for(p, key_bound, val_bound, p.buckets)
+}
+
+/// `table`: the parameters the table file was created with (reopen keeps the stored table)
+pub fn sanitize_params_for(p: Params, key_bound: u64, val_bound: u64, table: Buckets) -> (Params, u64) {
     let mut p = p;
     let mut ex = 0;
-    let htx_len = 128 + p.buckets.bucket_count() * 8 + p.buckets.bucket_count() / 8 + 8;
+    let htx_len = 128 + table.bucket_count() * 8 + table.bucket_count() / 8 + 8;
     let lim = 131072u64;
     if let BufP::PerMille(x) = p.key {
         if x < 1000 && key_bound > lim {
@@ -629,7 +634,7 @@ pub fn history_strategy(cfg: HistCfg) -> BoxedStrategy<History> {
                         .into_iter()
                         .map(|op| match op {
                             Op::Reopen { params, child, order } => {
-                                let (p2, e2) = sanitize_params(params, kb, vb);
+                                let (p2, e2) = sanitize_params_for(params, kb, vb, p.buckets);
                                 ex += e2;
                                 Op::Reopen {
                                     params: p2,
